@@ -1111,6 +1111,14 @@ def class_scenarios(rng, count):
                     b.ret(tup(lit(tag), call(b.v("sm"))))
                 b.end()
                 defined.setdefault(mname, []).append(lvl)
+            if rng.random() < 0.3:
+                # a user class may override a method it inherits from Object itself; subclasses inherit the override, not Object's
+                b.method("derives", ["c"])
+                if lvl > 0 and rng.random() < 0.5:
+                    b.ret(tup(lit(cname + ".derives"), b.superinv("derives", b.v("c"))))
+                else:
+                    b.ret(lit(cname + ".derives"))
+                b.end()
             if lvl > 0 and defined.get("m") and rng.random() < 0.6:
                 # reaches the superclass's m by a route of its own: a field named m on the instance must not be consulted
                 b.method("via", [])
